@@ -201,3 +201,42 @@ def check_refusal(ctx, guards, rule, body, field, value, what):
         bad = [(w, s) for (w, s, p) in details if p is None]
         ctx.violation(rule, key, "%s can return an answer on %s: unguarded non-error return(s) %s" % (body.short.split("::")[-1], what, bad[:3]), bad[0][1] if bad else loc_str(body.span))
     return ok
+
+
+def refusal_kinds(ctx, guards, rule, prog, roots=None, floor=0):
+    """a straight-line refusal under a test of specs.directed / specs.multi_edges (the exclusive region of one outcome
+    contains no further branch and constructs an error) raises ErrorKind::WrongMethod: callers tell `wrong kind of graph`
+    from `bad argument` / `not found` by that kind.  `roots`: restrict to the bodies reachable from these paths."""
+    from engines import errorkind_sites
+
+    only = None
+    if roots is not None:
+        only = set(prog.reachable_bodies(list(roots)))
+    n = 0
+    for p in sorted(prog.bodies):
+        if only is not None and p not in only:
+            continue
+        b = prog.bodies[p]
+        if b.kind == "closure":
+            continue
+        for field in ("directed", "multi_edges"):
+            try:
+                sw = guards.spec_switches(b, field)
+            except Exception:
+                continue
+            for (bb, succs) in sw:
+                for val in (True, False):
+                    a, o = succs.get(val), succs.get(not val)
+                    if a is None or o is None:
+                        continue
+                    ex = (b.reachable_from(a) | {a}) - (b.reachable_from(o) | {o})
+                    if any(b.blocks[x].term.k == "switch" for x in ex):
+                        continue
+                    ks = [(s_, v_) for (kb, s_, v_) in errorkind_sites(b) if kb in ex]
+                    for (s_, v_) in ks:
+                        n += 1
+                        ctx.require(v_ == "WrongMethod", rule, "refusal-kind|%s|%s=%s" % (b.short, field, str(val).lower()),
+                                    "%s refuses specs.%s == %s with ErrorKind::WrongMethod" % (b.short.split("::")[-1], field, str(val).lower()),
+                                    "%s refuses a graph with specs.%s == %s with ErrorKind::%s, not WrongMethod: a caller that tells the wrong kind of graph from a bad argument by the error kind is misled" % (b.short.split("::")[-1], field, str(val).lower(), v_), loc_str(s_.span))
+    ctx.floor(rule, "straight_line_refusals", n, floor)
+    return n
